@@ -303,7 +303,8 @@ def run_job(job, propdir, verbose=False):
         ob = {"name": nm, "description": desc, "status": st,
               "location": "%s:%s" % (loc.get("file", "?"), loc.get("line", "?")), "function": loc.get("function", "")}
         if CANARY in desc:
-            res.canary = (st == "FAILURE")
+            if ob["function"] in ("", job.entry):      # a canary of another harness in the same text is unreachable from this entry: not this job's canary
+                res.canary = (st == "FAILURE")
             continue
         res.obligations.append(ob)
         if st == "FAILURE" and "shim:" in desc:
